@@ -58,6 +58,10 @@ fn test_menu() -> Vec<TestDesc> {
         t(Some("hdr"), "A Q"),
         t(Some("Label"), "Bits InDefault Label\n1 2 3\n"),
         t(Some("nbsp"), "D\u{a0}0\u{2003}x A\n1 0\n"),
+        // the read-back column of an input that is itself called <x>_out
+        t(Some("y"), "B_out_out A\n1 0\n"),
+        // outputs read by the program that are no column of the test
+        t(Some("rd"), "A\n(Q + R)\nlet k = Q;\n(k)\n"),
         // further attribute entries, as Digital writes them: every Testcase element is a test
         TestDesc { label: Some("off".into()), source: "A B_out\n1 0\n".into(), extra: vec![("enabled", "<boolean>false</boolean>")] },
         TestDesc { label: Some("T".into()), source: "A Q\n1 1\n".into(), extra: vec![("enabled", "<boolean>true</boolean>"), ("Description", "<string>Label</string>"), ("rotation", "<rotation rotation=\"1\"/>")] },
